@@ -41,6 +41,15 @@ ObjOK(r) ==
       [] r.op = "gsphere" -> AllFinite(FmtT(r.t), DecAll(r.t, r.out))
       [] OTHER -> FALSE
 
+\* solidSphereRand at the resolution of its own rejection test: the squared length, evaluated in the element type exactly as
+\* Vec::length2() = dot does (left to right, every product and sum rounded; no fused multiply-add), is at most one
+RECURSIVE SumSqF(_, _, _)
+SumSqF(fmt, v, k) == IF k = 1 THEN I!FOp(fmt, "mul", v[1], v[1])
+                     ELSE I!FOp(fmt, "add", SumSqF(fmt, v, k - 1), I!FOp(fmt, "mul", v[k], v[k]))
+BallScanOK(r) == LET v == DecAll(r.t, r.out) IN
+                 /\ AllFinite(FmtT(r.t), v)
+                 /\ D!DLe(I!Val(FmtT(r.t), SumSqF(FmtT(r.t), v, Len(v))), D!DOne)
+
 Key(r) == r.id
 Seen(r) == IF Key(r) \in DOMAIN hist THEN hist[Key(r)] ELSE <<>>
 Count(r) == IF Key(r) \in DOMAIN cnt THEN cnt[Key(r)] ELSE 0
@@ -54,6 +63,7 @@ Judge(r) ==
       [] r.e = "nrand48" -> r.post = Step(r.pre) /\ r.out = Nrand(r.post)
       [] r.e = "erand48" -> r.post = Step(r.pre) /\ ErandRel(r.post, I!Dec64(r.out))
       [] r.e = "obj" -> ObjOK(r) /\ TwinOK(r)
+      [] r.e = "ballscan" -> BallScanOK(r)
       [] OTHER -> FALSE
 
 Init == l = 1 /\ static = <<0, 0, 0>> /\ hist = <<>> /\ cnt = <<>>
